@@ -24,7 +24,9 @@ class CoreMixin:
 
     # ------------------------------------------------------------------ nodes
     def mk(self, op, args=(), attr=None, site=None) -> Node:
-        return self.g.mk(op, args, attr, site)
+        n = self.g.mk(op, args, attr, site)
+        n.fn = self._cur_fn
+        return n
 
     def const(self, v, site=None) -> Node:
         return self.g.const(v, site)
@@ -92,6 +94,19 @@ class CoreMixin:
         if op == "UnaryOp" and n.attr == "Not":
             t = self.truth(n.args[0], st)
             return None if t is None else (not t)
+        if op == "BoolOp":
+            ts = [self.truth(a, st) for a in n.args]
+            if n.attr == "And":
+                if any(t is False for t in ts):
+                    return False
+                if all(t is True for t in ts):
+                    return True
+            else:
+                if any(t is True for t in ts):
+                    return True
+                if all(t is False for t in ts):
+                    return False
+            return None
         if op == "Phi":
             ta, tb = self.truth(n.args[1], st), self.truth(n.args[2], st)
             if ta is not None and ta == tb:
